@@ -3,6 +3,9 @@ import CkbVerif.Model.Tx
 import CkbVerif.Lemmas.Since
 import CkbVerif.Lemmas.SinceSpec
 import CkbVerif.Lemmas.Tx
+import CkbVerif.Lemmas.TxMaturity
+import CkbVerif.Lemmas.TxCapacity
+import CkbVerif.Lemmas.TxRules
 
 /-!
 C04 — a transaction is accepted iff inputs are live and unspent and all tx rules hold.
@@ -16,9 +19,15 @@ correspondence harness (`harness/n04/src/c04.rs`) runs against the real verifier
   fraction arithmetic, holds; `rat_lt_is_fraction_order` (cross multiplication after gcd reduction is
   the order of exact fractions); `prefix_timestamp_overflows` (finding F11: the arithmetic before
   /repo commit 71994ca panics on a 56-bit value)
-* maturity: `maturity_ok_iff`
-* capacity: `capacity_ok_iff_partial`
+* maturity: `cellbase_immature_iff`, `maturity_ok_iff`, `maturity_first_failure`,
+  `time_relative_ok_iff`, `since_verify_ok_iff`
+* capacity: `occupied_capacity_closed_form`, `output_ok_iff`, `capacity_ok_iff` (closed form, non-partial),
+  and the older `capacity_ok_iff_partial`
+* context-free rules: `non_contextual_ok_iff`, `non_contextual_first_failure`, `pool_non_contextual_ok_iff`,
+  `select_version_ok_iff`, `dao_script_size_ok_iff`, `fee_basic_law`, `fee_cellbase`,
+  `capacity_ok_implies_fee`, `pipeline_accept_iff`, `pipeline_first_failure`
 * resolution: `resolve_ok_iff`, `resolveTxs_ok_iff` (block: `seen` accumulates), `resolve_seen`
+* whole verdict: `verdict_accepted_iff`
 * context-only dependence: `verdict_depends_only_on_tx_and_ctx`, `block_and_pool_agree`,
   `pool_accept_implies_block_accept_since`
 -/
@@ -278,6 +287,178 @@ theorem fixed_timestamp_immature (cfg : Cfg) (db : HeaderDb) (env : Env) (i now 
 example : medianTime [⟨1, 0, 0, 1000, 0⟩, ⟨2, 1, 0, 3000, 1⟩, ⟨3, 2, 0, 2000, 2⟩] 3 3 = some 2000 := by
   decide
 
+/-! ## Cellbase maturity -/
+
+/-- **cellbase_immature_iff.** the closure `cellbase_immature` of `MaturityVerifier::verify` answers
+`true` exactly for a cell that has a transaction info, was created by transaction 0 (the cellbase)
+of a block with number > 0, and for which, as exact fractions,
+`current epoch < cellbase_maturity + created epoch` — the code's `RationalU256` comparison
+(gcd-reduced sum and cross multiplication) is proved to be that exact comparison. The epoch the
+code calls "current" is `tx_env.epoch()`: the epoch field of the header the env was built from (the
+block itself for `Committed`, the tip for `Submitted`/`Proposed`). `epValid` excludes only packed
+epochs on which `to_rational` panics (non-zero with length 0). -/
+theorem cellbase_immature_iff (cfg : Cfg) (env : Env) (info : Option TxInfo)
+    (hm : epValid cfg.maturity) (henv : epValid env.epoch) (hinfo : InfoValid info) :
+    cellbaseImmature cfg env info = some true ↔ CellbaseImmature cfg env info :=
+  cellbaseImmature_true_iff cfg env info hm henv hinfo
+
+example : CellbaseImmature ⟨2, epPack 4 0 1, 37, 0⟩ ⟨.committed, 49, epPack 4 9 10, 1, 0⟩
+      (some ⟨10, epPack 1 0 10, 7, 0⟩) ∧
+    ¬ CellbaseImmature ⟨2, epPack 4 0 1, 37, 0⟩ ⟨.committed, 50, epPack 5 0 10, 1, 0⟩
+      (some ⟨10, epPack 1 0 10, 7, 0⟩) := by
+  constructor
+  · exact ⟨_, rfl, by decide, rfl, by unfold fracLe fracAdd; decide⟩
+  · rintro ⟨x, hx, _, _, h⟩
+    cases hx
+    exact h (by unfold fracLe fracAdd; decide)
+
+/-- **maturity_ok_iff.** `MaturityVerifier::verify` accepts iff no resolved input and no resolved
+cell dep (dep-group members included: they are in `resolved_cell_deps`) is an immature cellbase
+output; it never panics on valid chain epochs. -/
+theorem maturity_ok_iff (cfg : Cfg) (env : Env) (inputs deps : List (Option TxInfo))
+    (hm : epValid cfg.maturity) (henv : epValid env.epoch)
+    (hin : ∀ x ∈ inputs, InfoValid x) (hdep : ∀ x ∈ deps, InfoValid x) :
+    maturityVerify cfg env inputs deps = .ok ↔ ∀ x ∈ inputs ++ deps, ¬ CellbaseImmature cfg env x := by
+  unfold maturityVerify
+  rcases firstImmature_spec cfg env hm henv inputs hin 0 with ⟨e1, h1⟩ | ⟨k, e1, h1⟩
+  · rw [e1]
+    rcases firstImmature_spec cfg env hm henv deps hdep 0 with ⟨e2, h2⟩ | ⟨k, e2, h2⟩
+    · rw [e2]
+      constructor
+      · intro _ x hx
+        rcases List.mem_append.1 hx with hx | hx
+        · exact h1 x hx
+        · exact h2 x hx
+      · intro _; rfl
+    · rw [e2]
+      constructor
+      · intro h; cases h
+      · intro h
+        obtain ⟨x, hx, hP⟩ := h2.exists_mem
+        exact absurd hP (h x (List.mem_append.2 (Or.inr hx)))
+  · rw [e1]
+    constructor
+    · intro h; cases h
+    · intro h
+      obtain ⟨x, hx, hP⟩ := h1.exists_mem
+      exact absurd hP (h x (List.mem_append.2 (Or.inl hx)))
+
+example : maturityVerify ⟨2, epPack 4 0 1, 37, 0⟩ ⟨.committed, 50, epPack 5 0 10, 1, 0⟩
+      [some ⟨10, epPack 1 0 10, 7, 0⟩] [some ⟨10, epPack 1 0 10, 7, 1⟩] = .ok ∧
+    maturityVerify ⟨2, epPack 4 0 1, 37, 0⟩ ⟨.committed, 49, epPack 4 9 10, 1, 0⟩
+      [some ⟨10, epPack 1 0 10, 7, 1⟩] [none, some ⟨10, epPack 1 0 10, 7, 0⟩] = .cellbaseImmature .cellDeps 1 := by
+  decide
+
+/-- **maturity_first_failure.** the error names the first immature position: inputs are examined
+before cell deps, each in order (`CellbaseImmaturity { inner: Inputs | CellDeps, index }`). -/
+theorem maturity_first_failure (cfg : Cfg) (env : Env) (inputs deps : List (Option TxInfo))
+    (hm : epValid cfg.maturity) (henv : epValid env.epoch)
+    (hin : ∀ x ∈ inputs, InfoValid x) (hdep : ∀ x ∈ deps, InfoValid x) (i : Nat) :
+    (maturityVerify cfg env inputs deps = .cellbaseImmature .inputs i ↔
+      FirstAt (CellbaseImmature cfg env) inputs i) ∧
+    (maturityVerify cfg env inputs deps = .cellbaseImmature .cellDeps i ↔
+      (∀ x ∈ inputs, ¬ CellbaseImmature cfg env x) ∧ FirstAt (CellbaseImmature cfg env) deps i) := by
+  unfold maturityVerify
+  rcases firstImmature_spec cfg env hm henv inputs hin 0 with ⟨e1, h1⟩ | ⟨k, e1, h1⟩
+  · rw [e1]
+    have nin : ¬ FirstAt (CellbaseImmature cfg env) inputs i := fun h => by
+      obtain ⟨x, hx, hP⟩ := h.exists_mem; exact h1 x hx hP
+    rcases firstImmature_spec cfg env hm henv deps hdep 0 with ⟨e2, h2⟩ | ⟨k, e2, h2⟩
+    · rw [e2]
+      have nd : ¬ FirstAt (CellbaseImmature cfg env) deps i := fun h => by
+        obtain ⟨x, hx, hP⟩ := h.exists_mem; exact h2 x hx hP
+      refine ⟨⟨(fun h => by cases h), fun h => absurd h nin⟩, ⟨(fun h => by cases h), fun h => absurd h.2 nd⟩⟩
+    · rw [e2]
+      refine ⟨⟨(fun h => by cases h), fun h => absurd h nin⟩, ⟨?_, ?_⟩⟩
+      · intro h
+        have : 0 + k = i := by injection h
+        have : k = i := by omega
+        subst this
+        exact ⟨h1, h2⟩
+      · rintro ⟨_, h⟩
+        have : k = i := h2.unique h
+        subst this
+        simp
+  · rw [e1]
+    refine ⟨⟨?_, ?_⟩, ⟨(fun h => by cases h), ?_⟩⟩
+    · intro h
+      have : 0 + k = i := by injection h
+      have : k = i := by omega
+      subst this
+      exact h1
+    · intro h
+      have : k = i := h1.unique h
+      subst this
+      simp
+    · rintro ⟨hno, _⟩
+      obtain ⟨x, hx, hP⟩ := h1.exists_mem
+      exact absurd hP (hno x hx)
+
+/-- `SinceVerifier::verify` accepts iff every input's since check does (first failing input decides) -/
+theorem since_verify_ok_iff (cfg : Cfg) (db : HeaderDb) (env : Env) (ins : List (Nat × Option TxInfo)) (i : Nat) :
+    sinceVerify cfg db env i ins = .ok ↔
+      ∀ k (h : k < ins.length), checkSince cfg db env (i + k) ins[k].1 ins[k].2 = .ok := by
+  induction ins generalizing i with
+  | nil => simp [sinceVerify]
+  | cons a rest ih =>
+    obtain ⟨s, info⟩ := a
+    unfold sinceVerify
+    cases hc : checkSince cfg db env i s info with
+    | ok =>
+      simp only
+      rw [ih]
+      constructor
+      · intro h k hk
+        cases k with
+        | zero => simpa using hc
+        | succ k =>
+          have := h k (by simpa using hk)
+          simpa [Nat.add_assoc, Nat.add_comm 1 k] using this
+      · intro h k hk
+        have := h (k + 1) (by simpa using hk)
+        simpa [Nat.add_assoc, Nat.add_comm 1 k] using this
+    | invalidSince j =>
+      simp only
+      constructor
+      · intro h; cases h
+      · intro h; have := h 0 (by simp); simp [hc] at this
+    | immature j =>
+      simp only
+      constructor
+      · intro h; cases h
+      · intro h; have := h 0 (by simp); simp [hc] at this
+    | cellbaseImmature a j =>
+      simp only
+      constructor
+      · intro h; cases h
+      · intro h; have := h 0 (by simp); simp [hc] at this
+    | panic =>
+      simp only
+      constructor
+      · intro h; cases h
+      · intro h; have := h 0 (by simp); simp [hc] at this
+
+/-- **time_relative_ok_iff.** `TimeRelativeTransactionVerifier::verify` (what a cache hit re-runs
+in a block and in the pool) accepts iff the maturity rule holds for all inputs and deps AND every
+input's since check passes at the env's commit position. -/
+theorem time_relative_ok_iff (cfg : Cfg) (db : HeaderDb) (env : Env)
+    (ins : List (Nat × Option TxInfo)) (deps : List (Option TxInfo))
+    (hm : epValid cfg.maturity) (henv : epValid env.epoch)
+    (hin : ∀ x ∈ ins, InfoValid x.2) (hdep : ∀ x ∈ deps, InfoValid x) :
+    timeRelativeVerify cfg db env ins deps = .ok ↔
+      (∀ x ∈ ins.map (·.2) ++ deps, ¬ CellbaseImmature cfg env x) ∧
+      ∀ k (h : k < ins.length), checkSince cfg db env k ins[k].1 ins[k].2 = .ok := by
+  have hin' : ∀ x ∈ ins.map (·.2), InfoValid x := by
+    intro x hx
+    obtain ⟨y, hy, rfl⟩ := List.mem_map.1 hx
+    exact hin y hy
+  rw [← maturity_ok_iff cfg env _ deps hm henv hin' hdep]
+  have hs := since_verify_ok_iff cfg db env ins 0
+  simp only [Nat.zero_add] at hs
+  rw [← hs]
+  unfold timeRelativeVerify
+  cases hmv : maturityVerify cfg env (ins.map (·.2)) deps <;> simp
+
 /-! ## Resolution -/
 
 /-- the number of dep slots a transaction's cell deps expand to -/
@@ -485,6 +666,353 @@ example : capacityVerify false [6100000000] [⟨6100000000, 20, none, 0⟩] = .o
     capacityVerify false [6100000000] [⟨6099999999, 20, none, 0⟩] = .insufficient 0 ∧
     capacityVerify false [6099999999] [⟨6100000000, 20, none, 0⟩] = .outputsSumOverflow := by decide
 
+/-- **occupied_capacity_closed_form.** `CellOutput::occupied_capacity(data_capacity)` — the chain
+`Capacity::bytes(8).and_then(safe_add(data)).and_then(lock.occupied + ..).and_then(type.occupied + ..)` —
+equals the exact sum `(8 + (lock args + 33) + [type args + 33]) · 10^8 + data_capacity`, and every one
+of its `Overflow` branches (two or three `checked_mul`s, three `checked_add`s) fires iff that exact sum
+does not fit u64. -/
+theorem occupied_capacity_closed_form (o : Output) (dc : Nat) :
+    occupied o dc =
+      if fixedBytes o * BYTE_SHANNONS + dc < Tx.U64 then some (fixedBytes o * BYTE_SHANNONS + dc) else none :=
+  occupied_closed o dc
+
+example : fixedBytes ⟨0, 20, some 32, 7⟩ = 8 + (20 + 33) + (32 + 33) ∧ occBytes ⟨0, 20, some 32, 7⟩ = 133 := by decide
+
+/-- **output_ok_iff.** an output (u64 capacity field) passes the occupied-capacity rule iff its
+capacity covers `(8 + data len + lock args + 33 + [type args + 33])` bytes at 10^8 shannons per byte,
+in exact arithmetic (an occupied capacity beyond u64 can never be covered: the code answers
+`Overflow`). -/
+theorem output_ok_iff (o : Output) (hc : o.capacity < Tx.U64) :
+    OutputOk o ↔ occBytes o * BYTE_SHANNONS ≤ o.capacity := by
+  unfold OutputOk
+  rw [lackOfCapacity_closed]
+  by_cases h : occBytes o * BYTE_SHANNONS < Tx.U64
+  · rw [if_pos h]
+    simp only [Option.some.injEq, decide_eq_false_iff_not]
+    omega
+  · rw [if_neg h]
+    constructor
+    · intro h; cases h
+    · intro h2; omega
+
+/-- **capacity_ok_iff.** (closed form; supersedes `capacity_ok_iff_partial`) `CapacityVerifier`
+accepts iff (the transaction is a resolved cellbase or spends a DAO cell, or both capacity sums fit
+u64 and outputs ≤ inputs) and every output's capacity covers its occupied bytes · 10^8. -/
+theorem capacity_ok_iff (exempt : Bool) (ins : List Nat) (outs : List Output)
+    (hc : ∀ o ∈ outs, o.capacity < Tx.U64) :
+    capacityVerify exempt ins outs = .ok ↔
+      (exempt = true ∨ (ins.sum < Tx.U64 ∧ (outs.map (·.capacity)).sum < Tx.U64 ∧
+        (outs.map (·.capacity)).sum ≤ ins.sum)) ∧
+      ∀ o ∈ outs, occBytes o * BYTE_SHANNONS ≤ o.capacity := by
+  rw [capacity_ok_iff_partial]
+  constructor
+  · rintro ⟨h1, h2⟩
+    exact ⟨h1, fun o ho => (output_ok_iff o (hc o ho)).1 (h2 o ho)⟩
+  · rintro ⟨h1, h2⟩
+    exact ⟨h1, fun o ho => (output_ok_iff o (hc o ho)).2 (h2 o ho)⟩
+
+example : capacityVerify false [13300000000] [⟨13300000000, 20, some 32, 7⟩] = .ok ∧
+    capacityVerify false [13300000000] [⟨13299999999, 20, some 32, 7⟩] = .insufficient 0 ∧
+    capacityVerify true [] [⟨18446744073709551615, 20, none, 184467440676⟩] = .ok ∧
+    capacityVerify true [] [⟨18446744073709551615, 20, none, 184467440677⟩] = .overflow := by decide
+
+/-! ## Context-free rules, DAO lock size, VM version, fee, and the whole pipeline -/
+
+section Rules
+open CkbVerif.TxRules
+
+/-- **non_contextual_ok_iff.** `NonContextualTransactionVerifier::verify` accepts iff: the version is
+the consensus tx version; the serialized size in a block (molecule size + 4) is at most
+`max_block_bytes`; there is an input; there is an output unless the transaction is cellbase-shaped;
+no `CellDep` (out point AND dep type) and no header dep occurs twice; `outputs_data` has as many
+items as `outputs`; and every output's LOCK script has an enabled hash type (data, type, data1,
+data2). As coded, the hash type of TYPE scripts is not examined by this verifier. -/
+theorem non_contextual_ok_iff (txVersion maxBytes : Nat) (t : NcTx) :
+    nonContextual txVersion maxBytes t = .ok ↔
+      t.version = txVersion ∧ sizeInBlock t ≤ maxBytes ∧ t.inputs ≠ [] ∧
+      (t.outputs ≠ [] ∨ isCellbase t = true) ∧ t.cellDeps.Nodup ∧ t.headerDeps.Nodup ∧
+      t.outputs.length = t.outputsData.length ∧
+      ∀ o ∈ t.outputs, hashTypeEnabled o.lock.hashType = true := by
+  unfold nonContextual
+  by_cases h1 : t.version = txVersion
+  · by_cases h2 : sizeInBlock t ≤ maxBytes
+    · by_cases h3 : t.inputs = []
+      · simp [h1, h2, h3]
+      · have h3' : t.inputs.isEmpty = false := by
+          cases hh : t.inputs with
+          | nil => exact absurd hh h3
+          | cons a b => rfl
+        by_cases h4 : (t.outputs.isEmpty && !isCellbase t) = true
+        · have : ¬ (t.outputs ≠ [] ∨ isCellbase t = true) := by
+            simp only [Bool.and_eq_true, List.isEmpty_iff, Bool.not_eq_true'] at h4
+            simp [h4.1, h4.2]
+          simp [h1, h2, h3, h3', h4, this]
+        · have h4' : (t.outputs ≠ [] ∨ isCellbase t = true) := by
+            by_cases ho : t.outputs = []
+            · right
+              cases hc : isCellbase t
+              · exfalso; apply h4; simp [ho, hc]
+              · rfl
+            · left; exact ho
+          have h4f : (t.outputs.isEmpty && !isCellbase t) = false := by
+            cases hh : (t.outputs.isEmpty && !isCellbase t) <;> simp_all
+          simp only [h1, h2, h3', h4f, ne_eq, not_true_eq_false, if_false, not_false_eq_true, h3, h4',
+            true_and, Bool.false_eq_true]
+          cases hd : firstDup [] t.cellDeps with
+          | some d =>
+            have : ¬ t.cellDeps.Nodup := fun hn => by
+              have := (firstDup_none_iff t.cellDeps []).2 ⟨hn, by simp⟩
+              rw [hd] at this; cases this
+            simp [this]
+          | none =>
+            have hn1 := ((firstDup_none_iff t.cellDeps []).1 hd).1
+            cases hd2 : firstDup [] t.headerDeps with
+            | some d =>
+              have : ¬ t.headerDeps.Nodup := fun hn => by
+                have := (firstDup_none_iff t.headerDeps []).2 ⟨hn, by simp⟩
+                rw [hd2] at this; cases this
+              simp [this]
+            | none =>
+              have hn2 := ((firstDup_none_iff t.headerDeps []).1 hd2).1
+              by_cases h7 : t.outputs.length = t.outputsData.length
+              · simp only [h7, ne_eq, not_true_eq_false, if_false, hn1, hn2, true_and, checkHashTypes_ok_iff]
+                simp
+              · simp [h7]
+    · simp [h1, h2]
+  · simp [h1]
+
+example : nonContextual 0 597000
+    ⟨0, [(1, 0)], [⟨9, 0, 0⟩], [], [⟨⟨1, 20⟩, none⟩], [0], [65]⟩ = .ok ∧
+    sizeInBlock ⟨0, [(1, 0)], [⟨9, 0, 0⟩], [], [⟨⟨1, 20⟩, none⟩], [0], [65]⟩ = 335 ∧
+    nonContextual 0 334 ⟨0, [(1, 0)], [⟨9, 0, 0⟩], [], [⟨⟨1, 20⟩, none⟩], [0], [65]⟩ = .exceededMaximumBlockBytes ∧
+    nonContextual 0 597000 ⟨0, [(1, 0)], [⟨9, 0, 0⟩, ⟨9, 0, 0⟩], [], [⟨⟨1, 20⟩, none⟩], [0], [65]⟩ = .duplicateCellDeps 9 0 ∧
+    nonContextual 0 597000 ⟨0, [(1, 0)], [⟨9, 0, 0⟩, ⟨9, 0, 1⟩], [], [⟨⟨6, 20⟩, some ⟨3, 0⟩⟩], [0], [65]⟩ = .hashTypeNotPermitted 6 ∧
+    nonContextual 0 597000 ⟨0, [(1, 0)], [], [], [⟨⟨3, 20⟩, none⟩], [0], [65]⟩ = .invalidHashType 3 := by
+  decide
+
+/-- **non_contextual_first_failure.** the rules are examined in the code's order: a wrong version is
+reported whatever else is wrong; then the size; then emptiness (inputs before outputs). -/
+theorem non_contextual_first_failure (txVersion maxBytes : Nat) (t : NcTx) :
+    (nonContextual txVersion maxBytes t = .mismatchedVersion ↔ t.version ≠ txVersion) ∧
+    (nonContextual txVersion maxBytes t = .exceededMaximumBlockBytes ↔
+      t.version = txVersion ∧ maxBytes < sizeInBlock t) ∧
+    (nonContextual txVersion maxBytes t = .emptyInputs ↔
+      t.version = txVersion ∧ sizeInBlock t ≤ maxBytes ∧ t.inputs = []) := by
+  unfold nonContextual
+  by_cases h1 : t.version = txVersion
+  · by_cases h2 : sizeInBlock t ≤ maxBytes
+    · by_cases h3 : t.inputs = []
+      · simp [h1, h2, h3]
+      · have h3' : t.inputs.isEmpty = false := by
+          cases hh : t.inputs with
+          | nil => exact absurd hh h3
+          | cons a b => rfl
+        simp only [h1, h2, h3, h3', ne_eq, not_true_eq_false, if_false, not_false_eq_true, true_and,
+          Bool.false_eq_true, and_false, iff_false]
+        have hlt : ¬ maxBytes < sizeInBlock t := by omega
+        simp only [hlt, iff_false]
+        by_cases h4 : (t.outputs.isEmpty && !isCellbase t) = true
+        · simp [h4]
+        · have h4f : (t.outputs.isEmpty && !isCellbase t) = false := by
+            cases hh : (t.outputs.isEmpty && !isCellbase t) <;> simp_all
+          simp only [h4f, Bool.false_eq_true, if_false]
+          cases firstDup [] t.cellDeps with
+          | some d => simp
+          | none =>
+            cases firstDup [] t.headerDeps with
+            | some d => simp
+            | none =>
+              by_cases h7 : t.outputs.length = t.outputsData.length
+              · simp only [h7, ne_eq, not_true_eq_false, if_false]
+                generalize t.outputs.map (·.lock.hashType) = l
+                induction l with
+                | nil => simp [checkHashTypes]
+                | cons v rest ih =>
+                  unfold checkHashTypes
+                  by_cases hk : hashTypeKnown v = true
+                  · by_cases he : hashTypeEnabled v = true
+                    · simpa [hk, he] using ih
+                    · simp [hk, he]
+                  · simp [hk]
+              · simp [h7]
+    · have : maxBytes < sizeInBlock t := by omega
+      simp [h1, h2, this]
+  · simp [h1]
+
+/-- **pool_non_contextual_ok_iff.** the pool adds two context-free rejections of its own: the
+512 000-byte transaction size limit and "cellbase like". -/
+theorem pool_non_contextual_ok_iff (txVersion maxBytes : Nat) (t : NcTx) :
+    poolNonContextual txVersion maxBytes t = .ok ↔
+      nonContextual txVersion maxBytes t = .ok ∧ sizeInBlock t ≤ TRANSACTION_SIZE_LIMIT ∧
+      isCellbase t = false := by
+  unfold poolNonContextual
+  cases h : nonContextual txVersion maxBytes t <;> simp
+  by_cases h1 : TRANSACTION_SIZE_LIMIT < sizeInBlock t
+  · simp [h1]
+  · by_cases h2 : isCellbase t = true
+    · simp [h1, h2]
+    · simp [h1, h2]; omega
+
+example : poolNonContextual 0 597000 ⟨0, [(0, nullIdx)], [], [], [], [], [0]⟩ = .cellbaseLike ∧
+    nonContextual 0 597000 ⟨0, [(0, nullIdx)], [], [], [], [], [0]⟩ = .ok := by decide
+
+/-- **select_version_ok_iff.** a script group gets a VM version iff its hash type is `data`, or
+`type`, or `data1` with VM 1 enabled, or `data2` with VM 2 enabled, at the epoch number
+`epoch_number_without_proposal_window` reports: the env's epoch number for a committed
+transaction, and for a pooled one the number of the epoch of the block after the tip. -/
+theorem select_version_ok_iff (vm1 vm2 : Nat) (committed : Bool) (epoch h : Nat) :
+    (∃ k, selectVersion vm1 vm2 committed epoch h = .v k) ↔
+      h = HASH_TYPE_DATA ∨ h = HASH_TYPE_TYPE ∨
+      (h = HASH_TYPE_DATA1 ∧ vm1 ≤ epochNumberNoWindow committed epoch) ∨
+      (h = HASH_TYPE_DATA2 ∧ vm2 ≤ epochNumberNoWindow committed epoch) := by
+  unfold selectVersion hashTypeKnown HASH_TYPE_DATA HASH_TYPE_TYPE HASH_TYPE_DATA1 HASH_TYPE_DATA2
+  generalize epochNumberNoWindow committed epoch = n
+  by_cases h0 : h = 0
+  · subst h0; simp
+  · by_cases h1 : h = 1
+    · subst h1
+      by_cases e2 : vm2 ≤ n <;> by_cases e1 : vm1 ≤ n <;> simp [e1, e2]
+    · by_cases h2 : h = 2
+      · subst h2
+        by_cases e1 : vm1 ≤ n <;> simp [e1]
+      · by_cases h4 : h = 4
+        · subst h4
+          by_cases e2 : vm2 ≤ n <;> simp [e2]
+        · by_cases hk : (h == 1 || h % 2 == 0) = true
+          · simp [hk, h0, h1, h2, h4]
+          · simp [hk, h0, h1, h2, h4]
+
+example : selectVersion 0 10 true (Since.epPack 9 4 5) 4 = .invalidVmVersion 2 ∧
+    selectVersion 0 10 false (Since.epPack 9 4 5) 4 = .v 2 ∧
+    selectVersion 0 10 false (Since.epPack 9 3 5) 4 = .invalidVmVersion 2 ∧
+    selectVersion 0 10 true (Since.epPack 10 0 5) 1 = .v 2 := by decide
+
+/-- the spec of one (input, output) pair violating the DAO lock-size rule -/
+def DaoMismatch (startBlock : Nat) (p : DaoPair) : Prop :=
+  p.inputIsDao = true ∧ p.outputIsDao = true ∧ p.inputData = some true ∧
+  (∀ b, p.inputBlock = some b → startBlock ≤ b) ∧ p.inputLockSize ≠ p.outputLockSize
+
+/-- **dao_script_size_ok_iff.** `DaoScriptSizeVerifier` accepts iff no index pairs a DAO deposit
+input (DAO type script, loadable all-zero data, committed at or after
+`starting_block_limiting_dao_withdrawing_lock`, or without transaction info) with a DAO output whose
+lock script has a different serialized size. -/
+theorem dao_script_size_ok_iff (startBlock : Nat) (l : List DaoPair) :
+    daoScriptSize startBlock 0 l = none ↔ ∀ p ∈ l, ¬ DaoMismatch startBlock p := by
+  rw [daoScriptSize_none_iff]
+  have key : ∀ p, daoPairMismatch startBlock p = false ↔ ¬ DaoMismatch startBlock p := by
+    intro p
+    unfold daoPairMismatch DaoMismatch
+    cases hi : p.inputIsDao <;> cases ho : p.outputIsDao <;> simp
+    cases hd : p.inputData with
+    | none => simp
+    | some z =>
+      cases z
+      · simp
+      · cases hb : p.inputBlock with
+        | none => simp
+        | some b =>
+          by_cases hlt : b < startBlock
+          · simp [hlt]
+          · simp [hlt]; omega
+  constructor
+  · intro h p hp; exact (key p).1 (h p hp)
+  · intro h p hp; exact (key p).2 (h p hp)
+
+example : daoScriptSize 100 0 [⟨true, true, some true, some 100, 73, 74⟩] = some 0 ∧
+    daoScriptSize 100 0 [⟨true, true, some true, some 99, 73, 74⟩] = none ∧
+    daoScriptSize 100 0 [⟨true, true, some false, some 100, 73, 74⟩, ⟨true, true, some true, none, 73, 74⟩] = some 1 := by
+  decide
+
+/-- **fee_basic_law.** for a transaction without withdrawing DAO inputs the fee is defined iff both
+capacity sums fit u64 and outputs ≤ inputs, and then it is exactly inputs − outputs. -/
+theorem fee_basic_law (caps outs : List Nat) (hne : caps ≠ []) (f : Nat) :
+    transactionFee (caps.map .plain) outs = some f ↔
+      caps.sum < Tx.U64 ∧ outs.sum < Tx.U64 ∧ outs.sum ≤ caps.sum ∧ f = caps.sum - outs.sum := by
+  have h0 : (0 : Nat) < Tx.U64 := Nat.two_pow_pos 64
+  unfold transactionFee
+  have hne' : (caps.map FeeInput.plain).isEmpty = false := by
+    cases caps with
+    | nil => exact absurd rfl hne
+    | cons a b => rfl
+  rw [hne', maximumWithdraw_plain _ 0 h0, sumCapsL_closed _ 0 h0]
+  simp only [Bool.false_eq_true, if_false, Nat.zero_add]
+  by_cases h1 : caps.sum < Tx.U64
+  · by_cases h2 : outs.sum < Tx.U64
+    · simp only [h1, h2, if_true, safeSub, true_and]
+      by_cases h3 : outs.sum ≤ caps.sum
+      · simp [h3]; omega
+      · simp [h3]
+    · simp [h1, h2]
+  · simp [h1]
+
+example : transactionFee [.plain 500, .plain 100] [550, 20] = some 30 ∧
+    transactionFee [.plain 500] [501] = none ∧
+    transactionFee [.plain 1000, .withdraw 10000 (some 6100) 10000000000000000 10000500000000000 true] [] = some 11000 := by
+  decide
+
+/-- **fee_cellbase.** `FeeCalculator` skips a resolved cellbase -/
+theorem fee_cellbase (outs : List Nat) : transactionFee [] outs = some 0 := rfl
+
+/-- **capacity_ok_implies_fee.** when `CapacityVerifier`'s sum rule applies (no exemption) and it
+accepts, the fee computation of a transaction without withdrawing inputs cannot fail, and
+fee + outputs = inputs. -/
+theorem capacity_ok_implies_fee (caps : List Nat) (outs : List Output) (hne : caps ≠ [])
+    (h : capacityVerify false caps outs = .ok) :
+    transactionFee (caps.map .plain) (outs.map (·.capacity)) =
+      some (caps.sum - (outs.map (·.capacity)).sum) ∧ (outs.map (·.capacity)).sum ≤ caps.sum := by
+  have h2 := (capacity_ok_iff_partial false caps outs).1 h
+  rcases h2.1 with h3 | ⟨h3, h4, h5⟩
+  · cases h3
+  · exact ⟨(fee_basic_law caps _ hne _).2 ⟨h3, h4, h5, rfl⟩, h5⟩
+
+/-- **pipeline_accept_iff.** a transaction completes (with its cycles and fee) iff every rule holds:
+context-free rules, resolution, maturity + since, capacity, scripts within the cycle limit, a
+defined fee, and the DAO lock-size rule. -/
+theorem pipeline_accept_iff (r : RuleResults) (c f : Nat) :
+    pipeline r = .ok (c, f) ↔
+      r.nc = .ok ∧ r.resolve = none ∧ r.time = .ok ∧ r.cap = .ok ∧ r.cycles ≤ r.maxCycles ∧
+      r.scriptCode = 0 ∧ r.fee = some f ∧ r.dao = none ∧ c = r.cycles := by
+  unfold pipeline
+  cases h1 : r.nc <;> simp
+  cases h2 : r.resolve <;> simp
+  cases h3 : r.time <;> simp
+  cases h4 : r.cap <;> simp
+  by_cases h5 : r.cycles > r.maxCycles
+  · simp [h5]
+  · by_cases h6 : r.scriptCode = 0
+    · cases h7 : r.fee with
+      | none => simp [h5, h6]
+      | some f' =>
+        cases h8 : r.dao with
+        | some i => simp [h5, h6]
+        | none =>
+          simp [h5, h6]
+          constructor
+          · rintro ⟨rfl, rfl⟩; exact ⟨by omega, rfl, rfl⟩
+          · rintro ⟨_, rfl, rfl⟩; exact ⟨rfl, rfl⟩
+    · simp [h5, h6]
+
+example : pipeline ⟨.ok, none, .ok, .ok, 0, 537, 70000000, some 1000, none⟩ = .ok (537, 1000) ∧
+    pipeline ⟨.ok, none, .immature 0, .insufficient 1, 0, 537, 70000000, none, some 0⟩ = .error (.time (.immature 0)) := by
+  decide
+
+/-- **pipeline_first_failure.** the reported error is the one of the first failing rule in the code's
+order — in particular a time-relative failure (what a verification-cache hit still re-checks) wins
+over everything that follows it. -/
+theorem pipeline_first_failure (r : RuleResults) :
+    (r.nc ≠ .ok → pipeline r = .error (.nonContextual r.nc)) ∧
+    (r.nc = .ok → ∀ e, r.resolve = some e → pipeline r = .error (.resolve e)) ∧
+    (r.nc = .ok → r.resolve = none → r.time ≠ .ok → pipeline r = .error (.time r.time)) ∧
+    (r.nc = .ok → r.resolve = none → r.time = .ok → r.cap ≠ .ok → pipeline r = .error (.capacity r.cap)) := by
+  unfold pipeline
+  refine ⟨?_, ?_, ?_, ?_⟩
+  · intro h; cases h1 : r.nc <;> simp_all
+  · intro h e he; simp [h, he]
+  · intro h h2 h3; rw [h, h2]; cases h4 : r.time <;> simp_all
+  · intro h h2 h3 h4; rw [h, h2, h3]; cases h5 : r.cap <;> simp_all
+
+end Rules
+
 /-! ## The verdict depends on the transaction and the chain context only -/
 
 /-- two node states present the same chain context to a transaction: the same live-cell view, the
@@ -551,6 +1079,56 @@ theorem verdict_depends_only_on_tx_and_ctx (c1 c2 : Ctx) (h : SameContext c1 c2)
       rw [h2] at hr; simp [Except.map] at hr
       obtain ⟨a1, b1⟩ := r1; obtain ⟨a2, b2⟩ := r2
       simp only at hr; subst hr; rfl
+
+/-- **verdict_accepted_iff.** `resolve_transaction` followed by `ContextualTransactionVerifier::verify`
+accepts with `n` cycles iff resolution succeeds and, on the resolved cells, the time-relative rules
+(maturity, since), the capacity rules and the scripts (exit code 0 within the cycle limit) all hold. -/
+theorem verdict_accepted_iff (c : Ctx) (tx : TxBody) (n : Nat) :
+    verdict c tx = .accepted n ↔
+      ∃ r seen', resolveTx c.seen c.provider c.validHeader tx.refs = .ok (r, seen') ∧
+        Since.timeRelativeVerify c.cfg c.headers c.env
+          ((tx.sinces.zip r.inputs).map fun (s, op) => (s, (c.facts op).info))
+          (r.cellDeps.map fun op => (c.facts op).info) = .ok ∧
+        capacityVerify (r.inputs.isEmpty || r.inputs.any (fun op => (c.facts op).usesDao))
+          (r.inputs.map fun op => (c.facts op).capacity) tx.outputs = .ok ∧
+        (c.script tx r).2 = n ∧ n ≤ c.maxCycles ∧ (c.script tx r).1 = 0 := by
+  unfold verdict
+  cases hr : resolveTx c.seen c.provider c.validHeader tx.refs with
+  | error e =>
+    constructor
+    · intro h; cases h
+    · rintro ⟨r, s, h, _⟩; cases h
+  | ok rs =>
+    obtain ⟨r, s⟩ := rs
+    simp only
+    constructor
+    · intro h
+      refine ⟨r, s, rfl, ?_⟩
+      cases ht : Since.timeRelativeVerify c.cfg c.headers c.env
+          ((tx.sinces.zip r.inputs).map fun (s, op) => (s, (c.facts op).info))
+          (r.cellDeps.map fun op => (c.facts op).info) <;> rw [ht] at h <;> try (cases h)
+      refine ⟨rfl, ?_⟩
+      cases hc : capacityVerify (r.inputs.isEmpty || r.inputs.any (fun op => (c.facts op).usesDao))
+          (r.inputs.map fun op => (c.facts op).capacity) tx.outputs <;> rw [hc] at h <;> try (cases h)
+      refine ⟨rfl, ?_⟩
+      simp only at h
+      by_cases h1 : (c.script tx r).2 > c.maxCycles
+      · simp [h1] at h
+      · by_cases h2 : (c.script tx r).1 = 0
+        · simp [h1, h2] at h
+          have h' : (c.script tx r).2 = n := h
+          exact ⟨h', by omega, h2⟩
+        · simp [h1, h2] at h
+    · rintro ⟨r', s', h, ht, hc, hn, hle, h0⟩
+      cases h
+      rw [ht, hc]
+      simp only
+      have h1 : ¬ (c.script tx r).2 > c.maxCycles := by omega
+      simp [h1, h0, hn, hle]
+
+example : verdict ⟨fun op => if op.tx = 1 then .live none else .unknown, [], fun _ => true,
+      fun _ => ⟨none, 6100000000, false⟩, ⟨2, 0, 3, 0⟩, [], ⟨.committed, 5, 0, 1, 0⟩, fun _ _ => (0, 537), 1000⟩
+    ⟨⟨[⟨1, 0⟩], false, [], []⟩, [0], [⟨6100000000, 20, none, 0⟩]⟩ = .accepted 537 := by decide
 
 /-- **block_and_pool_agree.** the block side (`Committed` env built from the block's own header) and
 the pool side (`Proposed`/`Submitted` env built from the tip) run the same function; whenever the
